@@ -258,6 +258,11 @@ def body_requests(tier="quick"):
             splits += [[B[:i], B[i:j], B[j:]] for i in range(1, len(B)) for j in range(i + 1, len(B))]
         for chunks in splits:
             yield kind, SV.AReq(method="POST", path="/p", headers=headers, chunks=chunks)
+    # forms with as many parts as the default limit admits, one fewer, and one more
+    for n in (323, 324, 325):
+        parts = [MP.part(f"k{i % 5}", None if i % 4 else "f.bin", b"v") for i in range(n)]
+        body = MR.encode(parts, b"bd")
+        yield f"multipart-{n}-parts", SV.AReq(method="POST", path="/p", headers=[("Content-Type", "multipart/form-data; boundary=bd")], chunks=[body[:4000], body[4000:]])
     # a multipart body with multi-byte text and several fields, every two-way split
     parts = [MP.part("t", None, "é中x".encode()), MP.part("u", "fn.bin", b"\r\n--b\xff", "application/octet-stream"), MP.part("t", None, b"second")]
     body = MR.encode(parts, b"bd")
@@ -320,7 +325,7 @@ def file_cases():
 
 def shards(tier, seed):
     out = [("view", k, 8) for k in range(8)]
-    out += [("bodies",), ("sequences",), ("jsonbodies",), ("headernames",)]
+    out += [("bodies",), ("sequences",), ("jsonbodies",), ("headernames",), ("fileobject-pairs",)]
     out += [("small", k, 8) for k in range(8)]
     out += [("streams",), ("files",)]
     out += [("apps", name) for name in ("mounts", "hosts", "middleware-over-mounts", "files-handle404", "pages-private", "nested-routers")]
@@ -344,6 +349,17 @@ def run_shard(desc, tier):
         for bk, areq in body_requests(tier):
             compare(r, f"echo-body:{bk}", apps, areq, f"POST {bk} body in chunks {[len(c) for c in areq.chunks]}")
         r.sample({"recipe": "echo view with body", "body_kind": "multipart2", "chunking": "every two-way split"})
+    elif kind == "fileobject-pairs":
+        # two requests at once on one FileResponse object, on either stack: each request gets on both stacks what it gets alone
+        # (engine and oracle of C02's pair family; reported here because the two stacks may differ in it)
+        from . import c02
+        for label in ("wsgi:oneobject", "asgi:oneobject"):
+            rr = R()
+            c02.run_pairs(rr, label)
+            r.c.update(rr.c)
+            for sig, (size, wit, text) in rr.viol.items():
+                r.violation("fileobject-pairs:" + label.split(":")[0], {"recipe": "fileobject-pairs", "request": wit}, text)
+        r.sample({"recipe": "two requests at once on one FileResponse object", "stacks": ["wsgi", "asgi"]})
     elif kind == "headernames":
         # header names that contain the text a gateway adds or strips (HTTP-, Content-), repeat it, or differ only in case; one
         # and two headers per request
@@ -438,6 +454,12 @@ def run_shard(desc, tier):
             for dn in ("plain.txt", "é.txt", "中.txt"):
                 apps = {i: (lambda i=i: (lambda *a: mod(i).FileResponse(t.file, download_name=dn, content_type="text/x-c04")(*a)))() for i in ("wsgi", "asgi")}
                 compare(r, f"file:download_name={dn}", apps, SV.AReq(), "GET")
+            # the media type is guessed when none is given: from which name? (the file on disk is file.txt)
+            for dn in ("export.csv", "page.html", "data.json", "noext", "archive.tar.gz", "x.unknownext", "UPPER.PNG", ".hidden"):
+                for hs in ([], [("Range", "bytes=0-1,4-7")], [("Range", "bytes=2-5")]):
+                    for method in ("GET", "HEAD"):
+                        apps = {i: (lambda i=i: (lambda *a: mod(i).FileResponse(t.file, download_name=dn)(*a)))() for i in ("wsgi", "asgi")}
+                        compare(r, f"file:guess:{dn}", apps, SV.AReq(method=method, headers=hs), f"{method} {hs}")
             # one FileResponse object per interface answering a request sequence: the two stacks must agree on every answer
             ranges = [None, "bytes=0-3", "bytes=0-1,4-7", "bytes=99-", "junk", "bytes=-8"]
             for seq in itertools.permutations(range(len(ranges)), 3):
@@ -543,9 +565,11 @@ def replay(w):
     fam = rec.split(":")[0]
     r = R()
     if fam == "echo":
-        fams = [("view", k, 8) for k in range(8)]
+        fams = [("view", k, 8) for k in range(8)] + [("headernames",)]
+    elif fam == "fileobject-pairs":
+        fams = [("fileobject-pairs",)]
     elif fam == "echo-body":
-        fams = [("bodies",)]
+        fams = [("bodies",), ("jsonbodies",)]
     elif fam == "small":
         fams = [("small", k, 8) for k in range(8)]
     elif fam == "stream":
